@@ -138,6 +138,15 @@ def r06_2(ctx: Ctx):
             defs = local_defs(f).get(src.id, [])
             src_ok = bool(defs) and all(is_self_attr(_iter_source_attr(d), "active_demes", selfn) for d in defs)
         opaque = isinstance(src, ast.Call) and isinstance(src.func, ast.Attribute) and isinstance(src.func.value, ast.Name) and src.func.value.id == selfn
+        if not src_ok and not opaque:
+            # the loop may walk the level lists itself: read the loop nest as a deme listing
+            from .common import iteration_source
+
+            isrc = iteration_source(ctx, "DemeTree", f, loop)
+            if isrc["levels"] == 0 and "is_active" in isrc["filters"] and "not is_active" not in isrc["filters"] and not any(x.startswith("?") for x in isrc["filters"]):
+                src_ok = True
+            elif isrc["levels"] is None or any(x.startswith("?") for x in isrc["filters"]):
+                opaque = True
         if not src_ok:
             obs.append(ctx.ob("R06.2", f, loop, status=INCONCLUSIVE if opaque else VIOLATION, detail=f"the stepping loop iterates `{norm(loop.iter)}`, not the active_demes accessor", construct=norm(loop.iter)))
         else:
@@ -152,7 +161,11 @@ def r06_2(ctx: Ctx):
     # once per iteration
     viol = []
 
+    step_heads = {cfg.loop_of(n)["head"].id for n in step_nodes if cfg.loop_of(n) is not None}
+
     def node_fn(n, s):
+        if n.kind == "forhead" and n.id not in step_heads:
+            return [s]  # an enclosing loop (over the levels): iterations are those of the innermost, stepping loop
         if n.kind == "forhead":
             if s != "OUT":
                 cnt, hib = s
@@ -168,10 +181,14 @@ def r06_2(ctx: Ctx):
         return [s]
 
     def edge_fn(n, lab, s):
+        if n.kind == "forhead" and n.id not in step_heads:
+            return s
         if n.kind == "forhead":
             return (0, False) if lab == "iter" else "OUT"
         if s != "OUT" and n.kind == "cond" and "_hibernating" in n.label and lab is True:
             return (s[0], True)
+        if s != "OUT" and n.kind == "cond" and lab is False and isinstance(n.ast, ast.Attribute) and n.ast.attr in ("is_active", "_active"):
+            return "OUT"  # an inactive deme filtered out by the loop itself: not an iteration over an active deme
         return s
 
     at, exits, parent = typestate(cfg, ["OUT"], node_fn, edge_fn)
